@@ -139,6 +139,9 @@ func c04Check(in []byte) (nontrivial bool, class string, err error) {
 }
 
 func CheckC04(c *core.Case) error {
+	if c.Kind == "cold" {
+		return checkCold(c)
+	}
 	_, _, err := c04Check([]byte(c.In))
 	return err
 }
